@@ -774,7 +774,7 @@ Proof.
     assert (Hndm : NoDup (map profile m)).
     { eapply Permutation_NoDup; [|exact Hnd]. apply Permutation_map. apply Permutation_sym. exact Hp. }
     pose proof (perm_filter (cand_fits u) m es Hp) as HpF.
-    destruct u as [t|a t|].
+    destruct u as [t|a t| |x t].
     + (* value *)
       unfold disambiguate_no_actuals. rewrite (no_actuals_filter t m Hom).
       destruct (shape_of (filter (cand_fits (UVal t)) es)) as [|e|x y r0].
@@ -843,6 +843,11 @@ Proof.
         -- rewrite (disambiguate_several_fit m a t x' y' r' Hom Hndm EF). reflexivity.
     + (* type mark *)
       rewrite (typemark_filter es Ho). reflexivity.
+    + (* a call with an overloaded actual is resolved by site_result_x / resolve_x *)
+      assert (Hn : filter (cand_fits (UCallX x t)) es = []).
+      { clear. induction es as [|e r IH]; [reflexivity|]. cbn [filter]. unfold cand_fits at 1.
+        destruct (ekind e); exact IH. }
+      rewrite Hn. reflexivity.
 Qed.
 
 (* ------------------------------------------------------------------------------------------ *)
@@ -1964,6 +1969,16 @@ Proof.
     induction os; cbn [map]; constructor; [exact I|assumption].
 Qed.
 
+Lemma lookup_step_inv : forall (c : cfg) tr dst sc d res sc',
+  dsteps [] (rev tr) = Some dst -> dshape dst sc -> lookup sc d = Some (res, sc') ->
+  exists dst', dsteps [] (rev (OLookup d :: tr)) = Some dst' /\ dshape dst' sc'.
+Proof.
+  intros c tr dst sc d res sc' Hd Hs El.
+  assert (He : exec c sc (OLookup d) = Some (sc', Some res)) by (cbn [exec]; rewrite El; reflexivity).
+  destruct (dstep_shape c dst sc (OLookup d) sc' (Some res) Hs I He) as [dst' [Hd' Hs']].
+  exists dst'. split; [|exact Hs']. cbn [rev]. rewrite dsteps_app, Hd. cbn [dsteps]. rewrite Hd'. reflexivity.
+Qed.
+
 Lemma elab_item_inv : forall c lt st it st',
   body_uncaches c = true -> einv st -> elab_item c lt st it = Some st' -> einv st'.
 Proof.
@@ -1972,15 +1987,34 @@ Proof.
   - eapply do_ops_inv; [|exact Hi|exact H]. apply use_ops_not_add.
   - eapply do_ops_inv; [|exact Hi|exact H]. apply use_ops_not_add.
   - (* site *)
-    unfold elab_site in H.
-    destruct (match suse s with UVal t => if is_character (sdes s) then Some t else None | _ => None end).
-    + inversion H; subst. exact Hi.
-    + destruct (lookup (e_scope st) (sdes s)) as [[res s1]|] eqn:El; [|discriminate]. inversion H; subst; clear H.
-      destruct Hi as [dst [Hd Hs]]. 
-      assert (He : exec c (e_scope st) (OLookup (sdes s)) = Some (s1, Some res)) by (cbn [exec]; rewrite El; reflexivity).
-      destruct (dstep_shape c dst (e_scope st) (OLookup (sdes s)) s1 (Some res) Hs I He) as [dst' [Hd' Hs']].
-      exists dst'. cbn [e_trace e_scope]. split; [|exact Hs'].
-      cbn [rev]. rewrite dsteps_app, Hd. cbn [dsteps]. rewrite Hd'. reflexivity.
+    unfold elab_site in H. destruct Hi as [dst [Hd Hs]].
+    assert (Hplain : forall u,
+      match match u with UVal t => if is_character (sdes s) then Some t else None | _ => None end with
+      | Some t => Some (mkE (e_tab st) (e_scope st) (e_trace st)
+                            (mkOut (sid s) (char_site_result (lits_find lt t) (sdes s))
+                                   (char_site_result (lits_find lt t) (sdes s)) None :: e_out st))
+      | None => match lookup (e_scope st) (sdes s) with
+                | None => None
+                | Some (res, s') =>
+                    Some (mkE (e_tab st) s' (OLookup (sdes s) :: e_trace st)
+                              (mkOut (sid s) (site_result (sdes s) u (looked_of res))
+                                     (site_result (sdes s) u (looked_of (lookup_uncached (e_scope st) (sdes s)))) None
+                               :: e_out st))
+                end
+      end = Some st' -> einv st').
+    { intros u Hu.
+      destruct (match u with UVal t => if is_character (sdes s) then Some t else None | _ => None end).
+      - inversion Hu; subst. exists dst. split; assumption.
+      - destruct (lookup (e_scope st) (sdes s)) as [[res s1]|] eqn:El; [|discriminate]. inversion Hu; subst.
+        destruct (lookup_step_inv c (e_trace st) dst (e_scope st) (sdes s) res s1 Hd Hs El) as [dst' [Hd' Hs']].
+        exists dst'. split; assumption. }
+    destruct (suse s) as [t|a t| |x t];
+      [apply (Hplain (UVal t) H)|apply (Hplain (UCall a t) H)|apply (Hplain UType H)|].
+    destruct (lookup (e_scope st) (sdes s)) as [[ro s1]|] eqn:E1; [|discriminate].
+    destruct (lookup s1 (xarg_des x)) as [[ri s2]|] eqn:E2; [|discriminate]. inversion H; subst; clear H.
+    destruct (lookup_step_inv c (e_trace st) dst (e_scope st) (sdes s) ro s1 Hd Hs E1) as [dst1 [Hd1 Hs1]].
+    destruct (lookup_step_inv c (OLookup (sdes s) :: e_trace st) dst1 s1 (xarg_des x) ri s2 Hd1 Hs1 E2) as [dst2 [Hd2 Hs2]].
+    exists dst2. split; assumption.
   - eapply do_ops_inv; [|exact Hi|exact H]. repeat constructor.
   - (* function body *)
     destruct Hi as [dst [Hd Hs]]. unfold do_ops in H.
@@ -2081,3 +2115,40 @@ Proof.
   replace (t ++ OLookup d :: rest) with ((t ++ [OLookup d]) ++ rest) in Hd by (rewrite <- app_assoc; reflexivity).
   apply disciplined_prefix in Hd. eapply cache_coherent; eauto.
 Qed.
+
+(* ------------------------------------------------------------------------------------------ *)
+(* Calls whose actual is itself a use site                                                      *)
+(* ------------------------------------------------------------------------------------------ *)
+(* corpus: conv(color) return level / state; literal v0 of color and of light; pick(integer)
+   return color / light *)
+Definition prog_conv : program :=
+ [mkUnit 1 UPrimary [] [IDecl (mkEnt 1 110 (KLit (TOth 10)) None); IDecl (mkEnt 2 0 (KLit (TOth 10)) None); IDecl (mkEnt 3 1 (KLit (TOth 10)) None); IDecl (mkEnt 4 10 (KType (TOth 10) [(1, 110); (2, 0); (3, 1)]) None)];
+  mkUnit 2 UPrimary [] [IDecl (mkEnt 5 111 (KLit (TOth 11)) None); IDecl (mkEnt 6 0 (KLit (TOth 11)) None); IDecl (mkEnt 7 2 (KLit (TOth 11)) None); IDecl (mkEnt 8 11 (KType (TOth 11) [(5, 111); (6, 0); (7, 2)]) None)];
+  mkUnit 3 UPrimary [] [IDecl (mkEnt 9 112 (KLit (TOth 12)) None); IDecl (mkEnt 10 12 (KType (TOth 12) [(9, 112)]) None)];
+  mkUnit 4 UPrimary [] [IDecl (mkEnt 11 113 (KLit (TOth 13)) None); IDecl (mkEnt 12 10 (KType (TOth 13) [(11, 113)]) None)];
+  mkUnit 5 UPrimary [] [IDecl (mkEnt 20 4 (KFunc (TOth 10) (TOth 12)) None); IDecl (mkEnt 21 4 (KFunc (TOth 10) (TOth 13)) None); IDecl (mkEnt 22 5 (KFunc (TInt 0) (TOth 10)) None); IDecl (mkEnt 23 5 (KFunc (TInt 0) (TOth 11)) None)];
+  mkUnit 7 UPrimary [IUseAll 1; IUseAll 2; IUseAll 5] [];
+  mkUnit 8 (USecondary 7) [] [ISite (mkSite 1 4 (UCallX (XName 2 0) (TOth 12))); ISite (mkSite 3 4 (UCallX (XName 4 0) (TOth 13)));
+                              ISite (mkSite 5 4 (UCallX (XCall 6 5 AUniv) (TOth 12))); ISite (mkSite 7 4 (UCallX (XName 8 2) (TOth 12)))]].
+
+Lemma example_conv :
+  family_program prog_conv = true /\
+  spec_program prog_conv =
+    [(1, ADecl 20); (2, ADecl 2); (3, ADecl 21); (4, ADecl 2); (5, ADecl 20); (6, ADecl 22); (7, AError); (8, AError)] /\
+  observed cfg_now prog_conv =
+    Some ([(1, Some 20, MOk); (2, Some 2, MOk); (3, Some 21, MOk); (4, Some 2, MOk); (5, Some 20, MOk); (6, Some 22, MOk);
+           (7, None, MError); (8, None, MError)],
+          [(1, Some 20, MOk); (2, Some 2, MOk); (3, Some 21, MOk); (4, Some 2, MOk); (5, Some 20, MOk); (6, Some 22, MOk);
+           (7, None, MError); (8, None, MError)]).
+Proof. repeat split; vm_compute; reflexivity. Qed.
+
+(* the seeded change "check_call of the return-type stage dropped": the call still resolves and no
+   diagnostic appears, but the overloaded actual keeps no reference, where the reference resolver
+   (and the model of today's code) name the literal of the parameter's type *)
+Lemma return_stage_check_dropped_refuted :
+  let convs := [mkEnt 20 4 (KFunc (TOth 10) (TOth 12)) None; mkEnt 21 4 (KFunc (TOth 10) (TOth 13)) None] in
+  let reds := [mkEnt 2 0 (KLit (TOth 10)) None; mkEnt 6 0 (KLit (TOth 11)) None] in
+  resolve_x (DOver convs) (DOver reds) (XName 2 0) (TOth 12) = (ADecl 20, ADecl 2) /\
+  site_result_x 4 (XName 2 0) (TOth 12) (LkOver convs) (LkOver reds) = mkXres (Some 20) (Some 2) MOk (Some 3%nat) /\
+  site_result_x_gen (Some 3%nat) 4 (XName 2 0) (TOth 12) (LkOver convs) (LkOver reds) = mkXres (Some 20) None MOk (Some 3%nat).
+Proof. repeat split; vm_compute; reflexivity. Qed.
